@@ -12,13 +12,17 @@ VENV_PY = "/opt/veriftools/pyvenv/bin/python"
 def build_extension():
     repo = ALT_REPO or "/repo"
     target = os.path.join(ROOT, "harness", "target_py" + ("_alt" if ALT_REPO else ""))
-    env = dict(os.environ, PYO3_PYTHON=VENV_PY, CARGO_TARGET_DIR=target, CARGO_NET_OFFLINE="true",
-               RUSTFLAGS="--cfg bigtools_verif --check-cfg cfg(bigtools_verif)")
+    flags = "--cfg bigtools_verif --check-cfg cfg(bigtools_verif)"
+    if COV:      # coverage mode (tools/coverage.sh): an instrumented extension in its own target directory
+        target = os.path.join(WORK, "cov_target_py")
+        flags += " -C instrument-coverage"
+    env = dict(os.environ, PYO3_PYTHON=VENV_PY, CARGO_TARGET_DIR=target, CARGO_NET_OFFLINE="true", RUSTFLAGS=flags)
+    env.pop("LLVM_PROFILE_FILE", None)
     t0 = time.time()
     p = subprocess.run(["cargo", "build", "-p", "pybigtools", "--offline"], cwd=repo, env=env, stdout=subprocess.PIPE, stderr=subprocess.STDOUT, text=True)
     if p.returncode != 0:
         raise ToolError("pybigtools build failed:\n" + p.stdout[-4000:])
-    moddir = os.path.join(WORK, "pymod" + ("_alt" if ALT_REPO else ""))
+    moddir = os.path.join(WORK, "pymod" + ("_alt" if ALT_REPO else "") + ("_cov" if COV else ""))
     os.makedirs(moddir, exist_ok=True)
     shutil.copyfile(os.path.join(target, "debug", "libpybigtools.so"), os.path.join(moddir, "pybigtools.so"))
     log("[build] pybigtools extension built from %s in %.1fs" % (repo, time.time() - t0))
